@@ -1664,7 +1664,10 @@ class UTPM(Ring, RawAlgorithmsMixIn):
         if out is None:
             out = self.zeros_like()
 
-        if s <= 0:
+        if s == 0:
+            out.data[...] = self.data[...]
+
+        elif s < 0:
             out.data[:s,...] = self.data[-s:,...]
 
         else:
